@@ -2,9 +2,12 @@
 //!
 //! * `cell` / `fwd` / `casbit` (C17, C18): `cell.rs` over the stub bindings of `vms.rs`
 //!   (need the pinning bit spec: feature sets with `has_pinning`).
+//!   `group.rs`: races on a group of objects whose side-metadata fields share one byte (`fwd mrace`, `casbit mrace`).
 //! * `bpool` (C19): `bpool.rs`.
 #[cfg(feature = "has_pinning")]
 pub mod cell;
+#[cfg(feature = "has_pinning")]
+pub mod group;
 #[cfg(feature = "has_pinning")]
 pub mod vms;
 pub mod bpool;
